@@ -300,6 +300,17 @@ def make_stub_node(**kwargs):
             self.mempool.append({'hash': op_hash(b'foreign%d' % len(self.mempool)), 'branch': block_hash(self.level),
                                  'contents': contents, 'where': where})
 
+        def add_rejected(self, pkh, n_contents, section='refused', shape='object'):
+            """an operation of `pkh` the mempool has REJECTED (listed under refused / branch_refused / branch_delayed / outdated, in the
+            legacy `[hash, body]` shape or as an object): it will never be applied and takes no counter"""
+            acc = self.accounts[pkh]
+            first = acc['counter'] + self.pending_count(pkh) + 1
+            contents = [{'kind': 'transaction', 'source': pkh, 'fee': '0', 'counter': str(first + i), 'gas_limit': '2000',
+                         'storage_limit': '0', 'amount': '1', 'destination': pkh} for i in range(n_contents)]
+            if not hasattr(self, 'rejected'):
+                self.rejected = []
+            self.rejected.append((section, shape, {'hash': op_hash(b'rejected%d' % len(self.rejected)), 'branch': block_hash(self.level), 'contents': contents}))
+
         def bake(self):
             for op in self.mempool:
                 for c in op['contents']:
@@ -387,8 +398,12 @@ def make_stub_node(**kwargs):
                     unprocessed.append([op['hash'], {k: v for k, v in body.items() if k != 'hash'}])
                 else:
                     applied.append(body)
-            return {'applied': applied, 'refused': [], 'outdated': [], 'branch_refused': [], 'branch_delayed': [],
-                    'unprocessed': unprocessed}
+            out = {'applied': applied, 'refused': [], 'outdated': [], 'branch_refused': [], 'branch_delayed': [], 'unprocessed': unprocessed}
+            for section, shape, op in getattr(self, 'rejected', []):
+                err = [{'kind': 'permanent', 'id': 'proto.alpha.prefilter.fees_too_low'}]
+                body = {'branch': op['branch'], 'contents': op['contents'], 'signature': 'sig', 'error': err}
+                out[section].append([op['hash'], body] if shape == 'pair' else {'hash': op['hash'], **body})
+            return out
 
         def _run_operation(self, body):
             op = body['operation']
